@@ -123,13 +123,16 @@ def observe_list(l, op, src, keep):
     raise ValueError(k)
 
 
-def run_history(src, ops):
+def run_history(src, ops, limit=2):
+    """(an observation on a list of <= 5 items takes microseconds; `limit` only guards against a hang. A machine that is busy
+    elsewhere can stall a worker for more than 2 s, so a history with a timeout in it is run again with limit=60 before it is
+    believed — see o_history)"""
     ll = LazyList(x for x in src)
     out = []
     keep = {}
     for op in ops:
         try:
-            with alarm(2):
+            with alarm(limit):
                 out.append(canon(observe_ll(ll, op, src, keep)))
         except Timeout:
             out.append("timeout")
@@ -153,6 +156,8 @@ def want_history(src, ops):
 def o_history(inp):
     src, ops = inp["src"], inp["ops"]
     got, want = run_history(src, ops), want_history(src, ops)
+    if "timeout" in got:
+        got = run_history(src, ops, limit=60)
     if got == want:
         # observations never change the sequence the lazy list denotes
         return True, "equal"
@@ -214,7 +219,7 @@ def run(ctx, widen=False):
     if not thorough:
         sub = sub[::7] + sub[-3000:]
     lines = ["ll\t" + enc(c["src"], c["ops"]) for c in sub]
-    exp = [" ; ".join(fmt(a) for a in run_history(c["src"], c["ops"])) for c in sub]
+    exp = [" ; ".join(fmt(a) for a in run_history(c["src"], c["ops"], limit=60)) for c in sub]
     out = ctx.driver(lines)
     ctx.count("corr:lazylist-machine", len(lines))
     for c, e, o in zip(sub, exp, out):
